@@ -198,3 +198,47 @@ func VH_C08_growth() {
 	d.Close()
 	verifReach("end")
 }
+
+// C08 at the page cache: whatever the cache does when it is full, after clear()
+// (which resolveDirty calls when another connection has committed) it may have
+// forgotten a page but must never hand out a page object cached BEFORE the clear,
+// nor another page's object. The limit is a constructor parameter, so small
+// limits exercise the eviction path the 100-page production limit has.
+//verif:prop C08
+//verif:bounds limits 1..3; limit+1..limit+2 set() calls before the clear and 0..2 after it, page numbers symbolic in 1..4; one get() of a symbolic page number afterwards: nil, or the object of the last set() of that page since the clear
+func VH_C08_cache() {
+	limit := 1 + verifChoice(3)
+	c := newBtreeCache(limit)
+	before := limit + 1 + verifChoice(2)
+	tag := 0
+	for i := 0; i < before; i++ {
+		p := verifInt()
+		verifAssume(p >= 1 && p <= 4)
+		tag++
+		c.set(p, tag)
+	}
+	c.clear()
+	after := verifChoice(3)
+	var ps, ts [2]int
+	for i := 0; i < after; i++ {
+		p := verifInt()
+		verifAssume(p >= 1 && p <= 4)
+		tag++
+		c.set(p, tag)
+		ps[i], ts[i] = p, tag
+	}
+	q := verifInt()
+	verifAssume(q >= 1 && q <= 4)
+	got := c.get(q)
+	want := 0 // tag of the last set(q) since the clear
+	for i := 0; i < after; i++ {
+		if ps[i] == q {
+			want = ts[i]
+		}
+	}
+	if got != nil {
+		g, ok := got.(int)
+		verifAssert(ok && g == want, "a cached page object is the one last stored for that page since the cache was cleared")
+	}
+	verifReach("end")
+}
